@@ -8,3 +8,21 @@ package lib
 //@   inline
 //@ func Recover
 //@   inline
+
+// lib.Buffer: pooled byte buffers. TakeBuffer hands out a buffer nobody else holds (sync.Pool,
+// A-POOL); the buffer's B is empty with a non-zero capacity.
+//@ func TakeBuffer
+//@   trusted
+//@   ensures result != nil && fresh(result) && len(result.B) == 0 && cap(result.B) > 0
+
+//@ func ReleaseBuffer
+//@   trusted
+//@   modifies b.B
+
+//@ func (b *Buffer) Len
+//@   inline
+
+//@ func (b *Buffer) Allocate
+//@   trusted
+//@   modifies b.B
+//@   ensures len(b.B) == n && cap(b.B) >= n
